@@ -35,7 +35,7 @@ package kernel
 
 // ───────────── lemmas about the schedule (induction: see `induct` in govc/ext_induct.go) ─────────────
 
-//@ lemma PoolNonNeg(y int)
+//@ lemma PoolNonNeg(y mathint)
 //@   property C25
 //@   induct y
 //@   requires y >= 0
@@ -43,7 +43,7 @@ package kernel
 //@   pattern Pool(y)
 
 //@ -- the pool never grows
-//@ lemma PoolMono(a int, b int)
+//@ lemma PoolMono(a mathint, b mathint)
 //@   property C25
 //@   induct b
 //@   uses PoolNonNeg
@@ -52,7 +52,7 @@ package kernel
 //@   pattern Pool(a), Pool(b)
 
 //@ -- "Per-batch mint amounts never increase"
-//@ lemma SizeMono(b1 int, b2 int)
+//@ lemma SizeMono(b1 mathint, b2 mathint)
 //@   property C25
 //@   uses PoolMono
 //@   requires 0 <= b1 && b1 <= b2
@@ -60,12 +60,22 @@ package kernel
 
 //@ -- "their cumulative total never exceeds the mint pool": Cum(n) = Size(1) + … + Size(n). The induction carries the stronger
 //@ -- statement that what has been minted in the years before plus the current year's batches so far fits into what left the pool.
-//@ lemma CumBound(n int)
+//@ lemma CumBound(n mathint)
 //@   property C25
 //@   induct n
 //@   uses PoolNonNeg
 //@   requires n >= 0
+//@   ensures [idx] n >= 1 ==> (n % 365 != 0 ==> (n - 1) / 365 == n / 365 && (n - 1) % 365 == n % 365 - 1) &&
+//@       (n % 365 == 0 ==> (n - 1) / 365 == n / 365 - 1 && (n - 1) % 365 == 364)
+//@   ensures [year] n >= 1 && n % 365 == 0 ==> Pool(n / 365) == Pool(n / 365 - 1) - Pool(n / 365 - 1) / 10
+//@   ensures [unfold] n >= 1 ==> Cum(n) == Cum(n - 1) + Size(n)
+//@   ensures [same-year] n % 365 != 0 ==> Cum(n) + Pool(n / 365) <= 50000000000000 + (n % 365 + 1) * Size(n)
+//@   ensures [new-year] n % 365 == 0 ==> Cum(n) + Pool(n / 365) <= 50000000000000 + Size(n)
 //@   ensures [step] Cum(n) + Pool(n / 365) <= 50000000000000 + (n % 365 + 1) * Size(n)
+//@   ensures [size-nonneg] Size(n) >= 0
+//@   ensures [year-part] (n % 365 + 1) * Size(n) <= 365 * Size(n)
+//@   ensures [year-budget] 365 * Size(n) <= Pool(n / 365) / 10
+//@   ensures [next] Pool(n / 365 + 1) == Pool(n / 365) - Pool(n / 365) / 10
 //@   ensures [total] Cum(n) <= 50000000000000 - Pool(n / 365 + 1)
 //@   ensures [within-pool] Cum(n) <= 50000000000000
 
@@ -74,7 +84,7 @@ package kernel
 //@ spec PoolTabB(y int) mathint = y == 100 ? 1328069950 : (y == 101 ? 1195262955 : (y == 102 ? 1075736660 : (y == 103 ? 968162994 : (y == 104 ? 871346695 : (y == 105 ? 784212026 : (y == 106 ? 705790824 : (y == 107 ? 635211742 : (y == 108 ? 571690568 : (y == 109 ? 514521512 : (y == 110 ? 463069361 : (y == 111 ? 416762425 : (y == 112 ? 375086183 : (y == 113 ? 337577565 : (y == 114 ? 303819809 : (y == 115 ? 273437829 : (y == 116 ? 246094047 : (y == 117 ? 221484643 : (y == 118 ? 199336179 : (y == 119 ? 179402562 : (y == 120 ? 161462306 : (y == 121 ? 145316076 : (y == 122 ? 130784469 : (y == 123 ? 117706023 : (y == 124 ? 105935421 : (y == 125 ? 95341879 : (y == 126 ? 85807692 : (y == 127 ? 77226923 : (y == 128 ? 69504231 : (y == 129 ? 62553808 : (y == 130 ? 56298428 : (y == 131 ? 50668586 : (y == 132 ? 45601728 : (y == 133 ? 41041556 : (y == 134 ? 36937401 : (y == 135 ? 33243661 : (y == 136 ? 29919295 : (y == 137 ? 26927366 : (y == 138 ? 24234630 : (y == 139 ? 21811167 : (y == 140 ? 19630051 : (y == 141 ? 17667046 : (y == 142 ? 15900342 : (y == 143 ? 14310308 : (y == 144 ? 12879278 : (y == 145 ? 11591351 : (y == 146 ? 10432216 : (y == 147 ? 9388995 : (y == 148 ? 8450096 : (y == 149 ? 7605087 : (y == 150 ? 6844579 : (y == 151 ? 6160122 : (y == 152 ? 5544110 : (y == 153 ? 4989699 : (y == 154 ? 4490730 : (y == 155 ? 4041657 : (y == 156 ? 3637492 : (y == 157 ? 3273743 : (y == 158 ? 2946369 : (y == 159 ? 2651733 : (y == 160 ? 2386560 : (y == 161 ? 2147904 : (y == 162 ? 1933114 : (y == 163 ? 1739803 : (y == 164 ? 1565823 : (y == 165 ? 1409241 : (y == 166 ? 1268317 : (y == 167 ? 1141486 : (y == 168 ? 1027338 : (y == 169 ? 924605 : (y == 170 ? 832145 : (y == 171 ? 748931 : (y == 172 ? 674038 : (y == 173 ? 606635 : (y == 174 ? 545972 : (y == 175 ? 491375 : (y == 176 ? 442238 : (y == 177 ? 398015 : (y == 178 ? 358214 : (y == 179 ? 322393 : (y == 180 ? 290154 : (y == 181 ? 261139 : (y == 182 ? 235026 : (y == 183 ? 211524 : (y == 184 ? 190372 : (y == 185 ? 171335 : (y == 186 ? 154202 : (y == 187 ? 138782 : (y == 188 ? 124904 : (y == 189 ? 112414 : (y == 190 ? 101173 : (y == 191 ? 91056 : (y == 192 ? 81951 : (y == 193 ? 73756 : (y == 194 ? 66381 : (y == 195 ? 59743 : (y == 196 ? 53769 : (y == 197 ? 48393 : (y == 198 ? 43554 : (y == 199 ? 39199 : (0))))))))))))))))))))))))))))))))))))))))))))))))))))))))))))))))))))))))))))))))))))))))))))))))))))
 //@ spec PoolTabC(y int) mathint = y == 200 ? 35280 : (y == 201 ? 31752 : (y == 202 ? 28577 : (y == 203 ? 25720 : (y == 204 ? 23148 : (y == 205 ? 20834 : (y == 206 ? 18751 : (y == 207 ? 16876 : (y == 208 ? 15189 : (y == 209 ? 13671 : (y == 210 ? 12304 : (y == 211 ? 11074 : (y == 212 ? 9967 : (y == 213 ? 8971 : (y == 214 ? 8074 : (y == 215 ? 7267 : (y == 216 ? 6541 : (y == 217 ? 5887 : (y == 218 ? 5299 : (y == 219 ? 4770 : (y == 220 ? 4293 : (y == 221 ? 3864 : (y == 222 ? 3478 : (y == 223 ? 3131 : (y == 224 ? 2818 : (y == 225 ? 2537 : (y == 226 ? 2284 : (y == 227 ? 2056 : (y == 228 ? 1851 : (y == 229 ? 1666 : (y == 230 ? 1500 : (y == 231 ? 1350 : (y == 232 ? 1215 : (y == 233 ? 1094 : (y == 234 ? 985 : (y == 235 ? 887 : (y == 236 ? 799 : (y == 237 ? 720 : (y == 238 ? 648 : (y == 239 ? 584 : (y == 240 ? 526 : (y == 241 ? 474 : (y == 242 ? 427 : (y == 243 ? 385 : (y == 244 ? 347 : (y == 245 ? 313 : (y == 246 ? 282 : (y == 247 ? 254 : (y == 248 ? 229 : (y == 249 ? 207 : (y == 250 ? 187 : (y == 251 ? 169 : (y == 252 ? 153 : (y == 253 ? 138 : (y == 254 ? 125 : (y == 255 ? 113 : (y == 256 ? 102 : (y == 257 ? 92 : (y == 258 ? 83 : (y == 259 ? 75 : (y == 260 ? 68 : (y == 261 ? 62 : (y == 262 ? 56 : (y == 263 ? 51 : (y == 264 ? 46 : (y == 265 ? 42 : (y == 266 ? 38 : (y == 267 ? 35 : (y == 268 ? 32 : (y == 269 ? 29 : (y == 270 ? 27 : (y == 271 ? 25 : (y == 272 ? 23 : (y == 273 ? 21 : (y == 274 ? 19 : (y == 275 ? 18 : (y == 276 ? 17 : (y == 277 ? 16 : (y == 278 ? 15 : (y == 279 ? 14 : (y == 280 ? 13 : (y == 281 ? 12 : (y == 282 ? 11 : (y == 283 ? 10 : (y == 284 ? 9 : (0)))))))))))))))))))))))))))))))))))))))))))))))))))))))))))))))))))))))))))))))))))))
 //@ spec PoolTab(y int) mathint = y < 100 ? PoolTabA(y) : y < 200 ? PoolTabB(y) : PoolTabC(y)
-//@ lemma PoolTable(y int)
+//@ lemma PoolTable(y mathint)
 //@   property C25
 //@   induct y
 //@   requires 0 <= y && y <= 284
@@ -91,10 +101,49 @@ package kernel
 //@   ensures [y283] Pool(283) == 10
 //@   ensures [y284] Pool(284) == 9
 
-//@ lemma Horizon(j int)
+//@ lemma Horizon(j mathint)
 //@   property C25
 //@   uses PoolMono, HorizonValue
 //@   requires 0 <= j
 //@   ensures [positive-size] j <= 221 ==> Pool(j) >= 3650
 //@   ensures [live] j <= 283 ==> Pool(j) >= 10
 //@   pattern Pool(j)
+
+// ───────────── the distribution as mathematics ─────────────
+
+//@ -- RawWork: the work of a node as the code computes it from the stored (lead, sign) counts: lead*1e8*120/100 (+ sign*1e8 when sign > 0)
+//@ spec RawWork(lead mathint, sign mathint) mathint = lead * 100000000 * 120 / 100 + (sign > 0 ? sign * 100000000 : 0)
+//@ -- Shape: the four-piece function of kernel/mint.go (a = average work), with its floors exactly as coded
+//@ spec Shape(a mathint, w mathint) mathint = w >= 7 * a ? 2 * a : (w >= a ? w / 6 + 5 * a / 6 : (w <= a / 7 ? a / 7 : w))
+//@ -- Share: what a node with shaped work s receives of base b when the shaped works add up to t
+//@ spec Share(s mathint, b mathint, t mathint) mathint = s * b / t
+
+//@ -- "a node with more work never receives less": through the four pieces …
+//@ lemma ShapeMono(a mathint, w1 mathint, w2 mathint)
+//@   property C25
+//@   requires a > 0 && w1 >= w2 && w2 >= 0
+//@   ensures [mono] Shape(a, w1) >= Shape(a, w2)
+
+//@ lemma ShapeBounds(a mathint, w mathint)
+//@   property C25
+//@   requires a >= 7 && w >= 0
+//@   ensures [lower] Shape(a, w) >= a / 7 && a / 7 >= 1
+//@   ensures [upper] Shape(a, w) <= 2 * a
+
+//@ -- … and through the floor of s * base / total
+//@ lemma ShareMono(s1 mathint, s2 mathint, b mathint, t mathint)
+//@   property C25
+//@   requires t > 0 && b >= 0 && s1 >= s2 && s2 >= 0
+//@   ensures [mono] Share(s1, b, t) >= Share(s2, b, t)
+
+//@ -- the distributed amounts never add up to more than the base: floor(x/t) + floor(y/t) <= floor((x+y)/t)
+//@ lemma ShareSumStep(x mathint, y mathint, t mathint)
+//@   property C25
+//@   requires t > 0 && x >= 0 && y >= 0
+//@   ensures [floor-sum] x / t + y / t <= (x + y) / t
+
+//@ -- every share is positive when base >= 15 per node: s >= a/7, t <= 2*a*n, a >= 90
+//@ lemma SharePositive(a mathint, s mathint, b mathint, t mathint, n mathint)
+//@   property C25
+//@   requires a >= 90 && n >= 1 && s >= a / 7 && t >= s && t <= 2 * a * n && b >= 15 * n
+//@   ensures [positive] Share(s, b, t) >= 1
